@@ -1,3 +1,4 @@
+import NasimModel.Generated.LoaderOk
 import NasimModel.Proofs.LoaderInv
 /-!
 # C18 — malformed scenario files are rejected
